@@ -104,6 +104,17 @@ func newNetEnv(salt int64) *netEnv {
 	return &netEnv{m: m, t: ft, store: st}
 }
 
+// start runs the library's own receive loop (startReadingResponses) over the fake transport.  An error the
+// loop cannot handle makes it panic in its goroutine, i.e. the process dies (seen by the engine as a crash of
+// the scenario; natively the test process dies).
+func (n *netEnv) start() {
+	ctx, cancel := context.WithCancel(context.Background())
+	n.m.stopRoutines = cancel
+	n.m.startReadingResponses(ctx)
+}
+
+func (n *netEnv) stop() { n.m.stopRoutines(); n.t.in <- srvMsg{err: context.Canceled} }
+
 // startReader runs the receive loop exactly as startReadingResponses does, minus reconnection: any error other
 // than cancellation ends the loop (in the real loop: check(err) panics, i.e. the process dies).
 func (n *netEnv) startReader() {
